@@ -40,7 +40,7 @@ type node struct {
 	ns     string
 	attrs  []dattr
 	kids   []*node
-	text   string // text / comment / PI data / directive
+	text   string   // text / comment / PI data / directive
 	parts  []string // for merged text nodes: the constituent character-data tokens
 }
 
